@@ -700,8 +700,9 @@ def check_C13():
 
 def check_C16():
     ctx = Ctx("C16"); cov = {}
-    broken = proof_part(ctx, "props/C16.v", ["proofs/X_basic.v", "proofs/X_inv.v", "proofs/X_c13.v", "proofs/X_c16.v", "proofs/X_inst.v", "proofs/X_own.v", "proofs/X_chain.v", "proofs/X_c04.v", "proofs/X_lin.v", "proofs/X_resize.v", "proofs/X_read.v", "XMachine.v", "props/C03.v", "proofs/X_maps.v", "proofs/XS_read.v", "proofs/XS_rdinst.v", "XMachineS.v", "proofs/CX_product.v", "proofs/CX_mapof.v", "proofs/C08X_product.v", "proofs/C16X_product.v", "proofs/C16X_mapof.v", "proofs/C16X_ex.v", "props/C16X.v"], cov)
+    broken = proof_part(ctx, "props/C16.v", ["proofs/X_basic.v", "proofs/X_inv.v", "proofs/X_c13.v", "proofs/X_c16.v", "proofs/X_inst.v", "proofs/X_own.v", "proofs/X_chain.v", "proofs/X_c04.v", "proofs/X_lin.v", "proofs/X_resize.v", "proofs/X_read.v", "XMachine.v", "props/C03.v", "proofs/X_maps.v", "proofs/XS_read.v", "proofs/XS_rdinst.v", "XMachineS.v", "proofs/CX_product.v", "proofs/CX_mapof.v", "proofs/C08X_product.v", "proofs/C16X_product.v", "proofs/C16X_mapof.v", "proofs/C16X_ex.v", "props/C16X.v", "proofs/C16X_more.v", "props/C16X2.v"], cov)
     extra_props(ctx, "props/C16X.v", cov, broken)
+    extra_props(ctx, "props/C16X2.v", cov, broken)
     solo_part(ctx, "C16", cov)
     def sel(b):
         sc, r, why = b
